@@ -28,6 +28,13 @@ every time step), each call judged by ``ref.stalta`` with the window's own time
 step; bursts and steps are placed so that the chunk layout of the other time
 step gives another verdict (a decision must not depend on what was screened
 before with the same sample count).
+
+Family ``history`` (one root = attached object kind, components, optional first
+operation): every history of at most ``depth`` calls - refused calls included
+(STA / LTA longer than every window or than a later window of a list of unequal
+lengths, a component that does not exist) - on one attached object; after the
+last call the masks equal the returned selection or, when the call was refused
+and returned none, what they were before the call.
 """
 import itertools
 import math
@@ -796,6 +803,181 @@ def uneq_roots(tier):
 
 
 # ---------------------------------------------------------------------------
+# histories of calls on ONE attached HVSR object, refused calls included
+#
+# The masks of the attached object record the selection of the call that returned one.  A call that is refused
+# (STA or LTA longer than a window -> IndexError, a component that does not exist -> AttributeError) returns no
+# selection, so the object must show what it showed before that call: the selection of an earlier call, or
+# masks set by another operation.  Every history of at most ``depth`` calls over the operation alphabet below
+# is executed on a new object; the LAST call of the history is judged (every prefix is a history of its own):
+# * it returned: both masks of every azimuth == the returned selection (``check_masks``);
+# * it was refused: both masks of every azimuth == the masks before the call (values, bool, shape).
+# The refusals come in two shapes: every window too short (refused at the first window) and a list of unequal
+# lengths in which the window at position p is too short (refused after p windows have been examined).
+
+HIST_DT = UNEQ_DT
+HIST_N = 3
+HIST_LISTS = {
+    "eq": ["S4", "Te4", "Tl4"],             # 4 s windows; burst on ns / on vt
+    "uneq": ["Te3", "S7", "S4"],
+    "short0": ["S3", "Te7", "S7"],          # the 3 s window is shorter than 5 s, the 7 s windows are not
+    "short1": ["Te7", "S3", "S7"],
+    "short2": ["Te7", "S7", "S3"],
+}
+_NARROW, _DEFAULT, _WIDE = (0.5, 1.5), (0.2, 2.5), (0.0, 50.0)
+HIST_OPS = {
+    # inside the domain
+    "v_narrow": dict(fn="sta_lta", list="eq", sta=1, lta=2, limits=_NARROW),
+    "v_default": dict(fn="sta_lta", list="eq", sta=1, lta=2, limits=_DEFAULT),
+    "v_wide": dict(fn="sta_lta", list="eq", sta=1, lta=2, limits=_WIDE),
+    "v_uneq": dict(fn="sta_lta", list="uneq", sta=1, lta=3, limits=_NARROW),
+    "v_max": dict(fn="maximum_value", list="eq", normalized=True, threshold=0.9),
+    # STA / LTA longer than every window
+    "r_sta_all": dict(fn="sta_lta", list="eq", sta=5, lta=2, limits=_NARROW, too_short=[0, 1, 2]),
+    "r_lta_all": dict(fn="sta_lta", list="eq", sta=1, lta=5, limits=_NARROW, too_short=[0, 1, 2]),
+    # a component that does not exist (after existing ones)
+    "r_comp_sta": dict(fn="sta_lta", list="eq", sta=1, lta=2, limits=_NARROW, extra_component="up"),
+    "r_comp_max": dict(fn="maximum_value", list="eq", normalized=True, threshold=0.9, extra_component="up"),
+}
+for _p in range(HIST_N):    # STA / LTA longer than the window at position p only
+    HIST_OPS[f"r_lta_short{_p}"] = dict(fn="sta_lta", list=f"short{_p}", sta=1, lta=5, limits=_NARROW, too_short=[_p])
+    HIST_OPS[f"r_sta_short{_p}"] = dict(fn="sta_lta", list=f"short{_p}", sta=5, lta=2, limits=_NARROW, too_short=[_p])
+HIST_OP_NAMES = list(HIST_OPS)
+HIST_KINDS = ["trad", "azi", "trad_pre", "azi_pre"]
+# tier -> [(components, depth)]
+HIST_COMPS = {"quick": [(("ns", "ew", "vt"), 3), (("vt", "ns"), 2)],
+              "thorough": [(("ns", "ew", "vt"), 4), (("vt", "ns"), 3), (("ns",), 3), (("vt",), 3)]}
+
+
+def hist_call(op, comps, h):
+    """Execute one operation on fresh recordings; (recordings, returned list or None, exception or None)."""
+    recs = uneq_records(HIST_LISTS[op["list"]])
+    cs = tuple(comps) + ((op["extra_component"],) if "extra_component" in op else ())
+    try:
+        if op["fn"] == "sta_lta":
+            out = sta_lta_window_rejection(recs, sta_seconds=op["sta"], lta_seconds=op["lta"],
+                                           min_sta_lta_ratio=op["limits"][0], max_sta_lta_ratio=op["limits"][1],
+                                           components=cs, hvsr=h)
+        else:
+            out = maximum_value_window_rejection(recs, maximum_value_threshold=op["threshold"],
+                                                 normalized=op["normalized"], components=cs, hvsr=h)
+    except Exception as e:      # noqa: BLE001 - judged by the caller
+        return recs, None, e
+    return recs, out, None
+
+
+def mask_snapshot(h, kind):
+    return [[np.array(getattr(t, name), copy=True) for name in ("valid_window_boolean_mask", "valid_peak_boolean_mask")]
+            for t in ([h] if kind.startswith("trad") else list(h.hvsrs))]
+
+
+_HIST_EARLIER = {}
+
+
+def hist_earlier_rejected(op, comps):
+    """Does the real code reject (alone, no object attached) a window that stands before the first too-short one?"""
+    key = (op["list"], op.get("sta"), op.get("lta"), comps)
+    if key not in _HIST_EARLIER:
+        res = False
+        for w in HIST_LISTS[op["list"]][:min(op["too_short"])]:
+            recs = uneq_records([w])
+            try:
+                out = sta_lta_window_rejection(recs, sta_seconds=op["sta"], lta_seconds=op["lta"],
+                                               min_sta_lta_ratio=op["limits"][0], max_sta_lta_ratio=op["limits"][1],
+                                               components=comps, hvsr=None)
+                res = res or len(out) == 0
+            except Exception:       # noqa: BLE001
+                pass
+        _HIST_EARLIER[key] = res
+    return _HIST_EARLIER[key]
+
+
+def hist_root(ctx, root):
+    kind, comps, depth, prefix = root["hvsr"], tuple(root["comps"]), root["depth"], root["prefix"]
+    tag = "trad" if kind.startswith("trad") else "azi"
+    # histories that are just the prefix belong to the root with the empty prefix
+    seqs = [list(prefix) + list(t) for d in range(1, depth - len(prefix) + 1)
+            for t in itertools.product(HIST_OP_NAMES, repeat=d)]
+    for seq in seqs:
+        h = make_hvsr(kind, HIST_N)
+        ctx.count("states")
+        ctx.count("histories")
+        before = recs = out = err = None
+        for name in seq:
+            before = mask_snapshot(h, kind)
+            recs, out, err = hist_call(HIST_OPS[name], comps, h)
+            ctx.count("transitions")
+        op = HIST_OPS[seq[-1]]
+        fn = op["fn"]
+        detail = dict(family="history of calls on one attached object; the last call is judged",
+                      hvsr=kind, initial_masks="hvmc.checks.c13.make_hvsr(hvsr, 3)", components=comps,
+                      history=[dict(HIST_OPS[s], name=s, windows=HIST_LISTS[HIST_OPS[s]["list"]]) for s in seq],
+                      dt=HIST_DT, signals="hvmc.checks.c13.uneq_arrays(name)[component]; "
+                                          "components + (extra_component,) where given")
+        in_domain = "too_short" not in op and "extra_component" not in op
+        if err is not None:
+            if in_domain:
+                ctx.violation(f"C13:{fn}:call:raises", root, detail=detail, observed=f"{type(err).__name__}: {err}",
+                              explanation=f"{fn} rejection raised inside its domain")
+                continue
+            ctx.count("refused_calls_judged")
+            ctx.outcome(f"h|{seq[-1]}|{kind}|refused|" + "/".join(bits(m.tolist()) for t in before for m in t))
+            if any(not m.all() for t in before for m in t):
+                ctx.count("refused_with_earlier_rejections_on_the_object")
+                ctx.nontrivial_case(f"h|{kind}|{comps}|{'.'.join(seq)}")
+            if len(seq) > 1 and "too_short" not in HIST_OPS[seq[-2]] and "extra_component" not in HIST_OPS[seq[-2]]:
+                ctx.count("refused_after_a_call_that_returned")
+            if "too_short" in op and min(op["too_short"]) > 0:
+                ctx.count("refused_after_examining_windows")
+                if hist_earlier_rejected(op, comps):
+                    ctx.count("refused_after_examining_a_window_that_fails")
+            trads = [h] if tag == "trad" else list(h.hvsrs)
+            for ai, (t, snap) in enumerate(zip(trads, before)):
+                for (short, mname), m0 in zip((("window", "valid_window_boolean_mask"),
+                                               ("peak", "valid_peak_boolean_mask")), snap):
+                    m = np.asarray(getattr(t, mname))
+                    ctx.count("refused_mask_comparisons")
+                    if m.dtype != bool or m.shape != m0.shape or m.tolist() != m0.tolist():
+                        ctx.violation(f"C13:{fn}:refused-call:mask:{tag}:{short}-mask-changed", root,
+                                      detail=dict(detail, azimuth_index=ai, mask=mname,
+                                                  refusal=f"{type(err).__name__}: {err}"),
+                                      expected=m0.tolist(), observed=m.tolist(),
+                                      explanation=f"the last call of the history was refused and returned no "
+                                                  f"selection, yet {mname} of the attached {tag} object (azimuth "
+                                                  f"index {ai}) is not what it was before that call")
+            ctx.count("validated")
+            continue
+        if not in_domain:
+            ctx.count("outside_domain_call_not_refused")
+        kept = selection(recs, out)
+        if kept is None:
+            ctx.violation(f"C13:{fn}:returned-list:identity-order", root, detail=detail, observed=repr(out)[:300],
+                          explanation="the returned value is not a sub-list of the given windows")
+            continue
+        ctx.outcome(f"h|{seq[-1]}|{kind}|{bits(kept)}")
+        ctx.count("history_returned_calls_judged")
+        if len(seq) > 1 and ("too_short" in HIST_OPS[seq[-2]] or "extra_component" in HIST_OPS[seq[-2]]):
+            ctx.count("returned_after_a_refused_call")
+        check_masks(ctx, root, fn, h, kind, kept, detail)
+        ctx.count("validated")
+    if len(ctx.samples) < 5:
+        ctx.sample(dict(family="history of calls on one attached object", root=root, operations=HIST_OPS,
+                        lists=HIST_LISTS))
+
+
+def hist_roots(tier):
+    out = []
+    for kind in HIST_KINDS:
+        for comps, depth in HIST_COMPS[tier]:
+            prefixes = [[]] if depth <= 3 else [[]] + [[o] for o in HIST_OP_NAMES]
+            for p in prefixes:
+                # the root with the empty prefix of a split tier holds the histories of length 1 only
+                d = depth if (p or len(prefixes) == 1) else 1
+                out.append(dict(fn="history", hvsr=kind, comps=list(comps), depth=d, prefix=p))
+    return out
+
+
+# ---------------------------------------------------------------------------
 # maximum value
 
 def maxval_case(ctx, root, ws, case):
@@ -910,6 +1092,7 @@ def roots(tier, seed):
                 out.append(dict(fn=fn, k=k, lists=g, part=[p, parts]))
     out += same_n_roots(tier)
     out += uneq_roots(tier)
+    out += hist_roots(tier)
     return out
 
 
@@ -919,6 +1102,9 @@ def run_root(root, ctx, tier):
         return
     if root["fn"] == "sta_lta_unequal":
         uneq_root(ctx, root)
+        return
+    if root["fn"] == "history":
+        hist_root(ctx, root)
         return
     fn, k = root["fn"], root["k"]
     space = STA_SPACE if fn == "sta_lta" else MAX_SPACE
@@ -945,8 +1131,13 @@ def finalize(ctx, tier):
             "widening_comparisons", "alt_first_component_only_differs",
             "alt_per_window_normalisation_differs", "same_n_clear_kept", "same_n_clear_rejected",
             "alt_other_time_step_layout_differs", "uneq_clear_kept", "uneq_clear_rejected",
-            "uneq_list_independence_comparisons"]
+            "uneq_list_independence_comparisons", "refused_calls_judged", "refused_mask_comparisons",
+            "refused_with_earlier_rejections_on_the_object", "refused_after_a_call_that_returned",
+            "refused_after_examining_windows", "refused_after_examining_a_window_that_fails",
+            "history_returned_calls_judged", "returned_after_a_refused_call"]
     missing = [n for n in need if not c.get(n)]
+    if c.get("outside_domain_call_not_refused"):
+        ctx.notes["outside_domain_call_not_refused"] = c["outside_domain_call_not_refused"]
     if c.get("same_n_roots_without_discriminating_decision"):
         missing.append("same_n root in which the chunk layout of the other time step never decides otherwise")
     clear = c.get("clear_kept", 0) + c.get("clear_rejected", 0)
@@ -990,14 +1181,26 @@ def describe(tier):
              "choices x 4 limits, each decision compared with the reference for that window and with the decision "
              "for the list holding only that window.  After every call with an azimuthal result attached one kept "
              "window is rejected by hand on azimuth index 0 and the masks of the other azimuths must still equal "
-             "the selection",
+             "the selection.  Family history: for every attached object {traditional, azimuthal} x {fresh masks, "
+             "masks pre-set differently for windows and peaks} and every listed component choice EVERY history of "
+             "1..depth calls over the operation alphabet (STA/LTA narrow / default / wide limits, STA/LTA on "
+             "windows of unequal length, maximum value; refused: STA or LTA longer than every window, STA or LTA "
+             "longer than the window at position 0 / 1 / 2 of a list of unequal lengths, a component that does not "
+             "exist after existing ones, for both functions) is executed on a new object of 3 windows; the last "
+             "call is judged: returned -> both masks on every azimuth equal the returned selection, refused (no "
+             "selection) -> both masks on every azimuth are what they were before that call.  A history is "
+             "counted non-trivial when its last call is refused on an object that carries a rejection",
         bounds=dict(plan=sizes, alphabet=ALPHA, reduced_alphabets=dict(R4=R4, R3=R3),
                     sta=STA_SPACE["sta"], lta=STA_SPACE["lta"], dt=STA_SPACE["dt"],
                     min_ratio=MINS, max_ratio=MAXS, factors=FACTORS, maximum_value_criteria=CRITS,
                     hvsr=HVSR_KINDS, components=COMPS,
                     same_sample_count=dict(sets=SAME_N_SETS[tier], modes=SAME_N_MODES, windows=SAME_N_LIST,
                                            components=SAME_N_COMPS, limits=len(SAME_N_LIMITS),
-                                           roots=len(same_n_roots(tier)))),
+                                           roots=len(same_n_roots(tier))),
+                    history=dict(components_and_depth=HIST_COMPS[tier], operations=HIST_OPS, lists=HIST_LISTS,
+                                 hvsr=HIST_KINDS, windows_per_object=HIST_N,
+                                 histories=len(HIST_KINDS) * sum(len(HIST_OPS) ** d for _, depth in HIST_COMPS[tier]
+                                                                 for d in range(1, depth + 1)))),
         exhaustive=True,
         assumptions=[
             "STA/LTA decisions are compared with the reference only for windows that are clearly inside / "
@@ -1010,6 +1213,10 @@ def describe(tier):
             "components and over all components of all windows; windows on which the two readings differ "
             "are not decided",
             "time step 0.01 / 0.02 s, 4 s windows, sta/lta from {0.1,0.5,1} x {1,2,window}",
+            "history family: a call that raises returns no selection, so the masks of the attached object must be "
+            "what they were before it (values; the array objects may be new); that a length exceeding a window IS "
+            "refused is outside the quantifier and not demanded (such a call, if it returns, is judged like any "
+            "returned call and counted outside_domain_call_not_refused); time step 0.01 s, 3 windows per object",
             "same-sample-count family: amplitude factor 1, no HVSR object; roots share their worker process with "
             "other roots, so the very first call for a given (n, sta, lta) in a process may belong to another "
             "root - the oracle is absolute (reference per window), so this only changes WHICH time step would "
